@@ -780,6 +780,42 @@ do_table (void)
             }
         }
     }
+    /* the same labels once more from the last row to the first, and each row followed by its table predecessor: a look-up must
+     * not depend on what was looked up before */
+    {
+        int nrows = 0;
+        for (const tld_t *t = tld_list; t->domain; t++) nrows++;
+        for (int k = nrows - 1; k >= 0; k--) for (int j = 0; j < 2; j++) {
+            const tld_t *t = &tld_list[(j == 1 && k > 0) ? k - 1 : k];
+            size_t n = strlen (t->domain);
+            const char *p = place_bytes ((const unsigned char *) t->domain, (int) n, k & 1);
+            int rc = is_tld (p, p + n);
+            unplace ();
+            fprintf (f, "{\"e\":\"lookup\",\"in\":");
+            put_ubytes (f, (const unsigned char *) t->domain, (int) n);
+            fprintf (f, ",\"rc\":%d}\n", rc);
+            cnt.calls++; cnt.checked++; cnt.pinned++;
+        }
+        /* an unlisted label sharing a long prefix with the row, then the row itself */
+        for (int k = 0; k < nrows; k++) {
+            const tld_t *t = &tld_list[k];
+            size_t n = strlen (t->domain), cut = n > 16 ? 15 : n - 1;
+            char miss[80];
+            if (n < 2 || n > 70) continue;
+            memcpy (miss, t->domain, cut); miss[cut] = 'q'; miss[cut + 1] = 'q'; miss[cut + 2] = 0;
+            for (int j = 0; j < 2; j++) {
+                const char *lab = j ? t->domain : miss;
+                size_t ln = strlen (lab);
+                const char *p = place_bytes ((const unsigned char *) lab, (int) ln, k & 1);
+                int rc = is_tld (p, p + ln);
+                unplace ();
+                fprintf (f, "{\"e\":\"lookup\",\"in\":");
+                put_ubytes (f, (const unsigned char *) lab, (int) ln);
+                fprintf (f, ",\"rc\":%d}\n", rc);
+                cnt.calls++; cnt.checked++; cnt.pinned++;
+            }
+        }
+    }
     fclose (f);
 }
 
@@ -961,6 +997,68 @@ put_cstr_bytes (FILE *f, const char *s)
 }
 
 static void
+hist_reset (FILE *f)
+{   /* reference messages of this build: "no error" and "refused setup" on fresh objects (wording is free) */
+    eav_t f1, f2;
+    eav_init (&f1); eav_init (&f2); f2.rfc = (EAV_RFC) 7; (void) eav_setup (&f2);
+    fprintf (f, "{\"e\":\"reset\",\"noerr\":"); put_cstr_bytes (f, eav_errstr (&f1));
+    fprintf (f, ",\"badrfc\":"); put_cstr_bytes (f, eav_errstr (&f2));
+    fprintf (f, "}\n");
+    eav_free (&f1); eav_free (&f2);
+}
+
+static FILE *
+hist_file (void)
+{
+    static FILE *f;
+    char path[600];
+    if (f) return f;
+    snprintf (path, sizeof path, "%s/histtrace.ndjson", outdir);
+    if (!(f = fopen (path, "w"))) die ("open histtrace");
+    return f;
+}
+
+/* one eav_is_email on the object, recorded at its return together with the same call on a fresh object */
+static void
+hist_is_email (FILE *f, eav_t *ev, int confirmed, int idx, int k)
+{
+    int ret, fret;
+    const unsigned char *a = pool_b[idx];
+    int n = pool_n[idx], at = -1;
+    eav_t fr;
+    long *lb = malloc ((n + 1) * sizeof (long));
+    const char *p = place_bytes (a, n, k & 1), *msg;
+    for (int i = 0; i < n; i++) lb[i] = a[i];
+    ret = eav_is_email (ev, p, n);
+    msg = eav_errstr (ev);
+    fprintf (f, "{\"e\":\"is_email\",\"in\":");
+    put_ubytes (f, a, n);
+    fprintf (f, ",\"ret\":%d,\"err\":%d,\"rc\":%d,\"fl\":%d,\"idn\":%d,\"msg\":", ret, ev->errcode, ev->result->rc,
+             res_flags (ev->result), (int) ev->result->idn_rc);
+    put_cstr_bytes (f, msg);
+    fprintf (f, ",\"msgidn\":%d", (msg && ev->result->idn_rc != 0 && strcmp (msg, IDN_MSG (ev->result->idn_rc)) == 0) ? 1 : 0);
+    /* the same call on a fresh object with the same public settings and the confirmed mode */
+    eav_init (&fr);
+    fr.rfc = (EAV_RFC) (confirmed - 1); fr.tld_check = ev->tld_check; fr.allow_tld = ev->allow_tld;
+    if (eav_setup (&fr) != 0) die ("fresh setup");
+    fret = eav_is_email (&fr, p, n);
+    fprintf (f, ",\"fresh\":[%d,%d,%d,%d]", fret, fr.errcode, fr.result->rc, res_flags (fr.result));
+    eav_free (&fr);
+    unplace ();
+    for (int i = 0; i < n; i++) if (a[i] == '@') at = i;
+    if (at >= 0 && at + 1 < n && a[at + 1] != '[') {
+        char *out = NULL;
+        int code = idn2_to_ascii_8z ((const char *) a + at + 1, &out, IDN2_NONTRANSITIONAL);
+        fprintf (f, ",\"cc\":%d,\"co\":", code);
+        if (code == IDN2_OK && out) put_ubytes (f, (unsigned char *) out, (int) strlen (out)); else fputs ("[]", f);
+        if (out) free (out);
+    }
+    fputs ("}\n", f);
+    free (lb);
+    cnt.checked++;
+}
+
+static void
 do_random_histories (long *v, int nv)
 {
     char path[600];
@@ -970,19 +1068,11 @@ do_random_histories (long *v, int nv)
     for (int i = 1; i < POOL_MAX; i++) if (pool_b[i]) npool = i;
     if (!npool) die ("empty pool");
     rng_s = (unsigned long long) v[1] * 2654435761ULL + 12345;
-    snprintf (path, sizeof path, "%s/histtrace.ndjson", outdir);
-    if (!(f = fopen (path, "w"))) die ("open histtrace");
+    f = hist_file ();
     for (int h = 0; h < nhist; h++) {
         eav_t *ev = malloc (sizeof *ev);
         int live = 0, confirmed = 0;
-        {   /* reference messages of this build: "no error" and "refused setup" on fresh objects (wording is free) */
-            eav_t f1, f2;
-            eav_init (&f1); eav_init (&f2); f2.rfc = (EAV_RFC) 7; (void) eav_setup (&f2);
-            fprintf (f, "{\"e\":\"reset\",\"noerr\":"); put_cstr_bytes (f, eav_errstr (&f1));
-            fprintf (f, ",\"badrfc\":"); put_cstr_bytes (f, eav_errstr (&f2));
-            fprintf (f, "}\n");
-            eav_free (&f1); eav_free (&f2);
-        }
+        hist_reset (f);
 #ifdef VERIF_WRAP
         wrap_reset (); wrap_track = 1;
 #endif
@@ -991,40 +1081,7 @@ do_random_histories (long *v, int nv)
             cnt.calls++;
             if (!live) { eav_init (ev); live = 1; confirmed = 0; fprintf (f, "{\"e\":\"init\"}\n"); continue; }
             if (r < 50 && confirmed) {
-                int idx = 1 + (int) rnd (npool), ret, fret;
-                const unsigned char *a = pool_b[idx];
-                int n = pool_n[idx], at = -1;
-                eav_t fr;
-                long *lb = malloc ((n + 1) * sizeof (long));
-                const char *p = place_bytes (a, n, k & 1), *msg;
-                for (int i = 0; i < n; i++) lb[i] = a[i];
-                ret = eav_is_email (ev, p, n);
-                msg = eav_errstr (ev);
-                fprintf (f, "{\"e\":\"is_email\",\"in\":");
-                put_ubytes (f, a, n);
-                fprintf (f, ",\"ret\":%d,\"err\":%d,\"rc\":%d,\"fl\":%d,\"idn\":%d,\"msg\":", ret, ev->errcode, ev->result->rc,
-                         res_flags (ev->result), (int) ev->result->idn_rc);
-                put_cstr_bytes (f, msg);
-                fprintf (f, ",\"msgidn\":%d", (msg && ev->result->idn_rc != 0 && strcmp (msg, IDN_MSG (ev->result->idn_rc)) == 0) ? 1 : 0);
-                /* the same call on a fresh object with the same public settings and the confirmed mode */
-                eav_init (&fr);
-                fr.rfc = (EAV_RFC) (confirmed - 1); fr.tld_check = ev->tld_check; fr.allow_tld = ev->allow_tld;
-                if (eav_setup (&fr) != 0) die ("fresh setup");
-                fret = eav_is_email (&fr, p, n);
-                fprintf (f, ",\"fresh\":[%d,%d,%d,%d]", fret, fr.errcode, fr.result->rc, res_flags (fr.result));
-                eav_free (&fr);
-                unplace ();
-                for (int i = 0; i < n; i++) if (a[i] == '@') at = i;
-                if (at >= 0 && at + 1 < n && a[at + 1] != '[') {
-                    char *out = NULL;
-                    int code = idn2_to_ascii_8z ((const char *) a + at + 1, &out, IDN2_NONTRANSITIONAL);
-                    fprintf (f, ",\"cc\":%d,\"co\":", code);
-                    if (code == IDN2_OK && out) put_ubytes (f, (unsigned char *) out, (int) strlen (out)); else fputs ("[]", f);
-                    if (out) free (out);
-                }
-                fputs ("}\n", f);
-                free (lb);
-                cnt.checked++;
+                hist_is_email (f, ev, confirmed, 1 + (int) rnd (npool), k);
             } else if (r < 62) {
                 static const int vals[] = { 0, 1, 2, 3, 0, 1, 2, 3, 3, 4, 7, -1 };
                 int val = vals[rnd (12)];
@@ -1071,7 +1128,44 @@ do_random_histories (long *v, int nv)
 #endif
         free (ev);
     }
-    fclose (f);
+    fflush (f);
+}
+
+/* kind 23: [23, rfc, tld_check, n, idx..] - one scripted history on one object: eav_init, the settings, eav_setup, then
+ * eav_is_email on the pool addresses idx.. in this order, eav_free.  Used for sequences in which every ordered pair of
+ * addresses occurs side by side (an outcome that depends on the address validated before shows as two outcomes of one call). */
+static void
+do_scripted_history (long *v, int nv)
+{
+    FILE *f = hist_file ();
+    eav_t *ev = malloc (sizeof *ev);
+    int n;
+    if (nv < 4 || nv != 4 + v[3]) die ("bad scripted-history vector");
+    n = (int) v[3];
+    hist_reset (f);
+#ifdef VERIF_WRAP
+    wrap_reset (); wrap_track = 1;
+#endif
+    eav_init (ev); fprintf (f, "{\"e\":\"init\"}\n");
+    ev->rfc = (EAV_RFC) v[1]; fprintf (f, "{\"e\":\"set_rfc\",\"v\":%d}\n", (int) v[1]);
+    ev->tld_check = v[2] != 0; fprintf (f, "{\"e\":\"set_tld\",\"v\":%d}\n", v[2] ? 1 : 0);
+    if (eav_setup (ev) != 0) die ("scripted history: setup refused");
+    fprintf (f, "{\"e\":\"setup\",\"ret\":0}\n");
+    for (int k = 0; k < n; k++) {
+        int idx = (int) v[4 + k];
+        if (idx < 1 || idx >= POOL_MAX || !pool_b[idx]) die ("scripted history: pool index");
+        cnt.calls++;
+        hist_is_email (f, ev, (int) v[1] + 1, idx, k);
+    }
+    eav_free (ev);
+#ifdef VERIF_WRAP
+    fprintf (f, "{\"e\":\"free\",\"live\":%ld,\"badfree\":%ld}\n", wrap_live_allocs (), wrap_bad_free);
+    wrap_track = 0;
+#else
+    fprintf (f, "{\"e\":\"free\",\"live\":0,\"badfree\":0}\n");
+#endif
+    free (ev);
+    fflush (f);
 }
 
 /* ------------------------------------------------------------------ */
@@ -1109,6 +1203,7 @@ main (int argc, char **argv)
         case 17: do_idn (v, nv); break;
         case 18: do_record (v, nv, 0); break;
         case 22: do_random_histories (v, nv); break;
+        case 23: do_scripted_history (v, nv); break;
         case 19: do_record (v, nv, 1); break;
         case 14: do_robust (v, nv, 0); break;
         case 10: do_defaults (v, nv); break;
